@@ -353,6 +353,16 @@ def standin_roundtrip(tier, seed):
     store.record_measurement(cirq.MeasurementKey("m"), [1, 1], q_[:2])
     store.record_channel_measurement(cirq.MeasurementKey("c"), 2)
     loose = np.array([[1, 1e-4], [0, 1]], dtype=complex)
+    # results whose arrays are not laid out row-major in memory (columns collected per qubit and transposed, Fortran order, a data frame's block)
+    import pandas as pd
+    cols = np.array([[0, 1, 1, 0, 1], [1, 1, 0, 0, 1], [0, 0, 1, 1, 1]], dtype=np.uint8)
+    layouts = [cirq.ResultDict(params=cirq.ParamResolver({}), measurements={"m": cols.T}),
+               cirq.ResultDict(params=cirq.ParamResolver({"a": 1}), records={"m": np.asfortranarray(np.arange(24).reshape(4, 2, 3) % 2).astype(np.uint8)}),
+               cirq.ResultDict(params=cirq.ParamResolver({}), measurements={"m": pd.DataFrame({"x": [0, 1, 1, 0], "y": [1, 1, 0, 1], "z": [0, 0, 0, 1]}).to_numpy(dtype=np.uint8)}),
+               cirq.ResultDict(params=cirq.ParamResolver({}), measurements={"m": np.arange(40).reshape(5, 8)[:, ::2] % 2})]
+    for v in layouts:
+        cases += 1
+        _laws(v, "ResultDict with a non-contiguous array", fails, dict(family="results whose arrays are not row-major in memory", value=repr(v)[:400]), imp)
     used = [cirq.MatrixGate(loose, unitary_check_atol=1e-3), cirq.MatrixGate(np.array([[1, 0], [0, 1.001]]), unitary_check=False), store, cirq.CZTargetGateset(preserve_moment_structure=False, reorder_operations=True), cirq.CZTargetGateset(preserve_moment_structure=False, allow_partial_czs=True), cirq.Duration(millis=2 ** 53 + 1), cirq.Duration(micros=2 ** 55 + 1), cirq.Duration(picos=2 ** 62 + 3)]  # (kept below the range of datetime.timedelta, which Duration hashes through)
     try:
         import cirq_google
